@@ -5,16 +5,17 @@
    the same holds for the list under the three strategies (shallow / recursive / fixpoint).
    Statements only; proofs live in Proofs/SimplClassicOk.v, StrategyClsOk.v, SimplClassicTotal.v.
 
-   MODULO SUBST.  The rules substitute_defined_variables, restrict_quantifier_domain and
-   simplify_transitive_equality call Formula::substitute.  Its semantic theorem belongs to C17
-   and is proved on another branch; the theorems named [..._modulo_subst] take the three
-   statements below as explicit premises.  The integrator discharges them with the C17 theorems
-   (Proofs of branch `subst`), after which they are closed. *)
+   The rules substitute_defined_variables, restrict_quantifier_domain and
+   simplify_transitive_equality call Formula::substitute.  Their proofs (Proofs/SimplClassicOk.v)
+   are parametric in three facts about it (semantics, free variables, totality); the theorems
+   named [..._modulo_subst] state them with these facts as explicit premises, and the theorems
+   without the suffix are the same statements with the premises discharged by the C17 theorems
+   substitute_sem / substitute_fv / substitute_total (Proofs/SubstOk.v, Proofs/SimplClassicClosed.v). *)
 From Coq Require Import List String ZArith.
 Import ListNotations.
 From Anthem Require Import Syntax.Fol Sem.Domain Sem.Sat Model.Apply Model.Subst
   Model.SimplClassic Model.StrategyCls
-  Proofs.SimplClassicOk Proofs.StrategyClsOk Proofs.SimplClassicTotal.
+  Proofs.SimplClassicOk Proofs.StrategyClsOk Proofs.SimplClassicTotal Proofs.SimplClassicClosed.
 Open Scope string_scope.
 
 (* ---- the three facts about Formula::substitute (C17) ---- *)
@@ -42,7 +43,33 @@ Theorem C07_cls_extend_quantifier_scope : preserves extend_quantifier_scope.
 Proof. exact extend_quantifier_scope_ok. Qed.
 Print Assumptions C07_cls_extend_quantifier_scope.
 
-(* ---- rules that substitute ---- *)
+(* ---- rules that substitute: closed ---- *)
+Theorem C07_cls_substitute_defined_variables : preserves substitute_defined_variables.
+Proof. exact substitute_defined_variables_closed. Qed.
+Print Assumptions C07_cls_substitute_defined_variables.
+
+Theorem C07_cls_restrict_quantifier_domain : preserves restrict_quantifier_domain.
+Proof. exact restrict_quantifier_domain_closed. Qed.
+Print Assumptions C07_cls_restrict_quantifier_domain.
+
+Theorem C07_cls_simplify_transitive_equality : preserves simplify_transitive_equality.
+Proof. exact simplify_transitive_equality_closed. Qed.
+Print Assumptions C07_cls_simplify_transitive_equality.
+
+(* ---- the list, and the list under a strategy: closed ---- *)
+Theorem C07_cls : forall r, In r CLASSIC -> preserves r.
+Proof. exact CLASSIC_closed. Qed.
+Print Assumptions C07_cls.
+
+Theorem C07_cls_strategies :
+  forall (fuel : nat) (s : strategy) (F G : formula),
+    run_strategy fuel CLASSIC s F = Some G ->
+    (forall (FI : fint) (I : pint) (e : env), csat FI I e G <-> csat FI I e F)
+    /\ incl (free_variables G) (free_variables F).
+Proof. exact run_classic_closed. Qed.
+Print Assumptions C07_cls_strategies.
+
+(* ---- the same with the facts about Formula::substitute as premises ---- *)
 Theorem C07_cls_substitute_defined_variables_modulo_subst :
   subst_sem_stmt -> subst_fv_stmt -> preserves substitute_defined_variables.
 Proof. exact substitute_defined_variables_ok. Qed.
@@ -112,6 +139,20 @@ Theorem C07_cls_no_panic_simplify_transitive_equality_modulo_subst :
 Proof. exact simplify_transitive_equality_total. Qed.
 Print Assumptions C07_cls_no_panic_simplify_transitive_equality_modulo_subst.
 
+(* closed forms *)
+Theorem C07_cls_no_panic_substitute_defined_variables :
+  forall F, exists G, substitute_defined_variables_opt F = Some G.
+Proof. exact substitute_defined_variables_no_panic. Qed.
+Print Assumptions C07_cls_no_panic_substitute_defined_variables.
+Theorem C07_cls_no_panic_restrict_quantifier_domain :
+  forall F, guards_ok F -> names_ok F -> exists G, restrict_quantifier_domain_opt F = Some G.
+Proof. exact restrict_quantifier_domain_no_panic. Qed.
+Print Assumptions C07_cls_no_panic_restrict_quantifier_domain.
+Theorem C07_cls_no_panic_simplify_transitive_equality :
+  forall F, guards_ok F -> exists G, simplify_transitive_equality_opt F = Some G.
+Proof. exact simplify_transitive_equality_no_panic. Qed.
+Print Assumptions C07_cls_no_panic_simplify_transitive_equality.
+
 (* ---- non-vacuity: each rule fires on a concrete formula (vm_compute of the model) ---- *)
 Definition gv (x : string) : gterm := GVar x.
 Definition iv (x : string) : gterm := GInt (IVar x).
@@ -132,7 +173,6 @@ Example C07_cls_fires_substitute_defined_variables :
   = FQ QExists [I_ "X"] (FBin CAnd (eqn (num 1) (num 1)) (atom "p" [num 1])).
 Proof. vm_compute. reflexivity. Qed.
 
-(* VARDEC-BEGIN
 (* exists Z (exists I$i (I$i = Z and q(I$i)) and p(Z))
    =>  exists I1$i (exists I$i (I$i = I1$i and q(I$i)) and p(I1$i)) *)
 Example C07_cls_fires_restrict_quantifier_domain_exists :
@@ -187,4 +227,3 @@ Example C07_cls_F5_fixed :
   let F := FQ QExists [I_ "X"] (FBin CAnd (FBin CAnd e (atom "p" [iv "X"])) e) in
   simplify_transitive_equality F = F.
 Proof. vm_compute. reflexivity. Qed.
-VARDEC-END *)
